@@ -450,6 +450,10 @@ def run_o_along(inp):
     ang = float(np.asarray(mk2(pvec, v1).angle(tb)).reshape(-1)[0])
     # the angle does not depend on the lengths of the tangent vectors
     ang_scaled = float(np.asarray(mk2(pvec, 3.7 * v1).angle(mk2(pvec, 0.4 * np.array(tb.vector, dtype=float)))).reshape(-1)[0])
+    # (x, v) ~ (-x, -v): the angle must not depend on which representative of either tangent vector is stored
+    vb = np.array(tb.vector, dtype=float).copy()
+    ang_reps = [float(np.asarray(mk2(s1 * pvec, s1 * v1).angle(mk2(s2 * pvec, s2 * vb))).reshape(-1)[0]) for s1 in (1, -1) for s2 in (1, -1)]
+    ang_opp = float(np.asarray(mk2(pvec, v1).angle(mk2(-pvec, vb))).reshape(-1)[0])
     ang_self = float(np.asarray(mk2(pvec, v1).angle(mk2(pvec, 2.5 * v1))).reshape(-1)[0])
     ang_anti = float(np.asarray(mk2(pvec, v1).angle(mk2(pvec, -0.5 * v1))).reshape(-1)[0])
     c = _d(x1, x2)
@@ -458,7 +462,7 @@ def run_o_along(inp):
     dq = _d(p, Qp)
     tq = p.unit_tangent_towards(Qp)
     end = tq.point_along(dq)
-    return {"d1": d1, "rank3": float(sv[-1]), "ang": ang, "ang_self": ang_self, "ang_anti": ang_anti, "ang_scaled": ang_scaled, "c": c, "d2": _d(p, x2),
+    return {"d1": d1, "rank3": float(sv[-1]), "ang": ang, "ang_self": ang_self, "ang_anti": ang_anti, "ang_scaled": ang_scaled, "ang_reps": ang_reps, "ang_opp": ang_opp, "c": c, "d2": _d(p, x2),
             "end": np.array(end.coords("klein"), dtype=float).tolist(), "dq": dq,
             "unit": float(G.mink(np.array(tq.vector, dtype=float), np.array(tq.vector, dtype=float)))}
 
@@ -484,6 +488,9 @@ def judge_o_along(inp, obs, lr):
     rhs = math.cosh(t1) * math.cosh(t2) - math.sinh(t1) * math.sinh(t2) * math.cos(obs["ang"])
     if not abs(lhs - rhs) <= (1e-3 if f32 else 1e-6) * (1 + abs(rhs)):
         return {"expected": {"law of cosines rhs": rhs}, "observed": lhs, "tags": {"what": "law_of_cosines"}}
+    if "ang_reps" in obs and not (max(abs(a - obs["ang"]) for a in obs["ang_reps"]) <= 1e-7 and abs(obs["ang_opp"] - (math.pi - obs["ang"])) <= 1e-7):
+        return {"expected": {"angle independent of the representative (x,v) ~ (-x,-v); pi - angle for (x,v1),(-x,v2)": obs["ang"]},
+                "observed": [obs["ang_reps"], obs["ang_opp"]], "tags": {"what": "angle", "representatives": True}}
     if not abs(obs["ang_scaled"] - obs["ang"]) <= 1e-7:
         return {"expected": {"angle independent of the vectors' lengths": obs["ang"]}, "observed": obs["ang_scaled"], "tags": {"what": "angle", "unequal_lengths": True}}
     if not (abs(obs["ang_self"]) <= 1e-6 and abs(obs["ang_anti"] - math.pi) <= 1e-6):
@@ -759,7 +766,7 @@ def judge_o_surface(inp, obs, lr):
 # ---- (i) arguments are not consumed: snapshot of every scalar / array argument, call-twice determinism ----------------
 ARG_PACKS = ["0d", "0d-view", "1d", "np.float64", "float", "int-or-float", "list"]
 ARG_CALLS = ["regular_polygon_radius", "polygon_interior_angle", "hyp_to_affine_dist", "regular_polygon_angle", "regular_polygon_radius_kw",
-             "point_along", "standard_rotation", "standard_loxodromic", "unit_tangent_towards", "origin_to_point"]
+             "point_along", "standard_rotation", "standard_loxodromic", "unit_tangent_towards", "origin_to_point", "int_tangent_data"]
 
 
 def _arg(v, pack):
@@ -783,6 +790,11 @@ def gen_o_args(rng, n):
         amax = (k - 2) * math.pi / k
         yield {"call": call, "pack": rng.choice(ARG_PACKS), "n": k, "a": rng.uniform(0.1 * amax, 0.9 * amax), "r": rng.uniform(0.2, 2.5),
                "t": rng.uniform(-2.5, 2.5), "dim": rng.choice([2, 3]), "tv": rand_tv(rng, 3), "q": G.fball(rng, 3, 0.9)}
+
+
+def random_from(inp):
+    import random
+    return random.Random(repr(sorted((k, repr(v)) for k, v in inp.items() if k in ("n", "a", "r", "t"))))
 
 
 def _snap(x):
@@ -817,6 +829,24 @@ def run_o_args(inp):
         if call == "standard_loxodromic":
             return np.array(H.Isometry.standard_loxodromic(dim, x).proj_data, dtype=float)
         raise ValueError(call)
+    if call == "int_tangent_data":
+        # (ii) objects whose own data is integral, in every packaging: Point.origin_to, TangentVector.point_along (normalised or not)
+        pt = G.int_timelike(random_from(inp), dim)
+        vec = [0] * (dim + 1)
+        vec[1 + (inp["n"] % dim)] = 1 + inp["n"] % 3
+        vec[0] = inp["n"] % 2
+        dp = ["int64", "int32", "list", "float64"][inp["n"] % 4]
+        arr = G.pack_data([pt, vec], dp)
+        tv = H.TangentVector(arr)
+        base = H.Point(np.array(pt, dtype=float))
+        w = np.array(vec, dtype=float) - np.array(pt, dtype=float) * (G.mink(np.array(vec, float), np.array(pt, float)) / G.mink(np.array(pt, float), np.array(pt, float)))
+        L = math.sqrt(G.mink(w, w))
+        t = inp["t"]
+        d_unit = _d(base, tv.normalized().point_along(t))
+        d_raw = _d(base, H.TangentVector(G.pack_data([pt, vec], dp)).point_along(t))     # not normalised: distance still |t| (origin_to normalises)
+        img = np.array((H.Point(G.pack_data(pt, dp)).origin_to() @ H.Point.get_origin(dim)).proj_data, dtype=float)
+        return {"arg_ok": True, "twice": 0.0, "ref": max(abs(d_unit - abs(t)), abs(d_raw - abs(t))) * 1e-3 if G.proj_equal(img, np.array(pt, float), 1e-9) else 1.0,
+                "pack": dp, "L": L}
     if call in ("unit_tangent_towards", "origin_to_point"):
         # array arguments that become object data: the caller's arrays must survive the queries
         pk = np.array(inp["tv"]["k"][:dim])
